@@ -364,6 +364,29 @@ def local_hyps(hyps, goal):
 
 
 FAILS = dict(n=0)
+try:
+    import sympy as _sympy  # noqa: F401  (pre-import: forked ring provers inherit it)
+except Exception:  # pragma: no cover
+    _sympy = None
+
+
+def _ring_candidate(goal):
+    """conjunction of real equalities (possibly under implications) with a non-linear term somewhere"""
+    todo = [goal]
+    n = 0
+    while todo:
+        g = todo.pop()
+        if z3.is_and(g):
+            todo.extend(g.children())
+        elif z3.is_implies(g):
+            todo.append(g.children()[1])
+        elif z3.is_eq(g) and g.children()[0].sort().kind() == z3.Z3_REAL_SORT:
+            n += 1
+        elif z3.is_true(g):
+            pass
+        else:
+            return False
+    return n > 0 and len(goal.sexpr()) > 120
 
 
 def prove(hyps, goal, timeout_ms=None, want_model=True):
@@ -377,8 +400,14 @@ def prove(hyps, goal, timeout_ms=None, want_model=True):
     t0 = time.time()
     STATS["queries"] += 1
     sub, dropped = relevant(hyps, goal)
+    if _ring_candidate(goal):
+        # polynomial identity modulo unit-circle / quotient definitions: algebraic normalisation first
+        from . import ring
+        r = _forked(lambda: ("proved" if ring.ring_prove(sub, goal) else "unknown", None, None), 60.0)
+        if r is not None and r[0] == "proved":
+            return "proved", None, "ring", time.time() - t0, None
     if dropped:
-        res = _forked(lambda: _z3_check(sub, goal, min(timeout_ms, 10000), False), min(timeout_ms, 10000) / 1000.0 + 2.0)
+        res = _forked(lambda: _z3_check(sub, goal, min(timeout_ms, 3000), False), min(timeout_ms, 3000) / 1000.0 + 2.0)
         if res is not None and res[0] == "proved":
             dt = time.time() - t0
             STATS["z3_secs"] += dt
